@@ -176,6 +176,7 @@ func main() {
 	r.Floor("programs.failing", 10)
 	r.Floor("tamper.variants", 300)
 	r.Floor("tamper.must-reject", 150)
+	r.Floor("tamper.program-variants", 1000)
 	r.Floor("preexec.no-trace-checked", 100)
 	r.Assume("kernel contracts share sandbox, bridge, verification and commit paths with user contracts but not the VM-specific syscall marshalling (wasm / native / EVM are not runnable offline)")
 	r.Assume("Node.PreExec mirrors Chain.PreExec of the xuperos engine call by call (simnode/txbuild.go)")
@@ -251,6 +252,43 @@ func (e *env) program(rng *rand.Rand, i int, block *[]*pb.Transaction) {
 		r.Violation("verify|pre-executed-transaction-rejected", fmt.Sprintf("the transaction assembled from a pre-execution on the same state is rejected: %v; program: %s; log %v", verr, shape, n.Log.Tail(3)),
 			map[string]interface{}{"program": p.String()})
 		return
+	}
+	// ---- tamper oracle on a sample of the random programs (read / write set only: whether an
+	// edited request must be rejected depends on the program's meaning, which only the fixed
+	// corpus items make decidable) ----
+	if every := r.N(20, 4); i%every == 0 && len(x.TxOutputsExt) > 0 {
+		it := corpus.Item{Name: "program", Tx: x, Signers: []*sn.Key{k}}
+		for _, m := range mutate.All(x) {
+			f := m.Field()
+			if f != "TxInputsExt" && f != "TxOutputsExt" {
+				continue
+			}
+			must, why := mustReject(it, m)
+			if !must {
+				continue
+			}
+			y, err := it.Resign(m.Msg.(*pb.Transaction))
+			if err != nil {
+				continue
+			}
+			ok, verr := n.State.VerifyTx(y)
+			acc := ok && verr == nil
+			if acc {
+				if tw, err := n.Twin(); err == nil {
+					if tw.State.DoTx(sn.CloneTx(y)) != nil {
+						acc = false
+					}
+					tw.Drop()
+				}
+			}
+			r.Count("tamper.program-variants", 1)
+			r.Case(fmt.Sprintf("tamper-program|%d|%s|%s", i, m.Path, m.Kind), true)
+			if acc {
+				r.Violation("tamper-accepted|"+why, fmt.Sprintf("program transaction with %s %s (re-signed, id recomputed) is still accepted: %s; program %s", m.Path, m.Kind, why, shape),
+					map[string]interface{}{"program": p.String(), "path": m.Path, "kind": m.Kind})
+				break
+			}
+		}
 	}
 	if err := n.State.DoTx(sn.CloneTx(x)); err != nil {
 		r.Violation("commit|pre-executed-transaction-refused", fmt.Sprintf("DoTx refuses a verified pre-executed transaction: %v; program %s", err, shape), map[string]interface{}{"program": p.String()})
